@@ -3,6 +3,7 @@ package props
 import (
 	"fmt"
 	"math"
+	"math/big"
 	"testing"
 
 	"github.com/yaricom/goNEAT/v4/experiment"
@@ -23,6 +24,29 @@ func call[T any](name string, f func() T) (v T, err error) {
 		}
 	}()
 	return f(), nil
+}
+
+// exactVariance: unbiased variance by the two-pass definition in 512-bit arithmetic, and sum(x^2 + mean^2) as a float64.
+func exactVariance(x []float64) (variance, scale float64) {
+	const prec = 512
+	n := len(x)
+	sum := new(big.Float).SetPrec(prec)
+	for _, v := range x {
+		sum.Add(sum, new(big.Float).SetPrec(prec).SetFloat64(v))
+	}
+	mean := new(big.Float).SetPrec(prec).Quo(sum, new(big.Float).SetPrec(prec).SetInt64(int64(n)))
+	ss := new(big.Float).SetPrec(prec)
+	for _, v := range x {
+		d := new(big.Float).SetPrec(prec).Sub(new(big.Float).SetPrec(prec).SetFloat64(v), mean)
+		ss.Add(ss, d.Mul(d, d))
+	}
+	ss.Quo(ss, new(big.Float).SetPrec(prec).SetInt64(int64(n-1)))
+	variance, _ = ss.Float64()
+	m, _ := mean.Float64()
+	for _, v := range x {
+		scale += v*v + m*m
+	}
+	return variance, scale
 }
 
 func refQuantile(sorted []float64, p float64) float64 {
@@ -114,13 +138,16 @@ func CheckC19Series(c C19Series, rec *Rec) error {
 		}
 	}
 	if n >= 2 {
-		ss, scale := 0.0, 0.0
-		for _, v := range sorted {
-			ss += (v - mean) * (v - mean)
-			scale += v*v + mean*mean
+		// reference: the two-pass definition evaluated in 512-bit arithmetic (the inputs are exact float64 values), so that
+		// the tolerance only has to cover the rounding of a numerically stable float64 evaluation: relative 1e-9 plus the
+		// second-order effect of a rounded mean, (n*eps)^2 * sum(x^2 + mean^2). A one-pass "sum of squares minus n*mean^2"
+		// loses all digits on a series with a large common offset and is outside it.
+		variance, scale := exactVariance(sorted)
+		const eps = 2.220446049250313e-16
+		vtol := 1e-9*math.Abs(variance) + 64*float64(n)*float64(n)*eps*eps*scale/float64(n-1) + 1e-300
+		if maxAbs := math.Max(math.Abs(sorted[0]), math.Abs(sorted[n-1])); variance > 0 && maxAbs*maxAbs > 1e6*variance {
+			rec.Class("large common offset, small spread")
 		}
-		variance := ss / float64(n-1)
-		vtol := 1e-9*scale/float64(n-1) + 1e-300
 		if err := near("Variance", variance, vtol); err != nil {
 			return err
 		}
@@ -129,7 +156,11 @@ func CheckC19Series(c C19Series, rec *Rec) error {
 		}
 		if !math.IsInf(variance, 0) {
 			sd := math.Sqrt(variance)
-			if err := near("StdDev", sd, math.Sqrt(vtol)+1e-9*sd); err != nil {
+			sdTol := math.Sqrt(vtol)
+			if sd > 0 {
+				sdTol = math.Min(sdTol, vtol/sd) + 1e-9*sd
+			}
+			if err := near("StdDev", sd, sdTol); err != nil {
 				return err
 			}
 		}
